@@ -64,6 +64,13 @@ def make_fault(rng, prog, cls, block):
     """Returns the raw text of the offending construct (may be several lines; the LAST line is the offending one unless noted)."""
     pos_cls, body, scope, file, extra = block
     if cls == "undefined-symbol":
+        macros = [s for s in prog.all_stmts() if s.k == "macrodef" and s.params]
+        if macros and not extra["in_macro"] and rng.random() < 0.3:
+            # as (part of) an argument of a macro invocation
+            m = rng.choice(macros)
+            args = ["1"] * len(m.params)
+            args[rng.randrange(len(args))] = rng.choice(["undefined_zz", "undefined_zz + 1", "<undefined_zz", "(undefined_zz)"])
+            return "%s(%s)" % (m.d.name, ", ".join(args)), "last"
         return rng.choice(["lda undefined_zz", "sta undefined_zz,x", ".word undefined_zz", ".byte <undefined_zz", "jmp undefined_zz", "lda #>undefined_zz"]), "last"
     if cls == "undefined-macro":
         return "nosuchmacro_zz(1)", "last"
